@@ -2259,6 +2259,8 @@ def extend(
 
     # Unpack and pack again
     pulses, *args = zip_longest(*pulse_to_qubit_mapping, fillvalue=None)
+    if not all(hasattr(pls, 'c_opers') for pls in pulses):
+        raise TypeError('Can only extend PulseSequences!')
     if len(args) == 1:
         qubits = args[0]
         identifier_mappings = [None]*len(qubits)
